@@ -96,10 +96,14 @@ func init() {
 			// publish context's own cancellation, and a delivery can never block forever on a
 			// sequential lock leaked by an earlier (panicking) delivery
 			c.Rule("C02.R4", "deliveries are not lost for a foreign reason: dispatch gets the publish context; no sequential lock survives a delivery")
-			c.Borrow("C02.R4", func(k string) bool { return strings.Contains(k, "dispatch-context") || strings.Contains(k, "handler-context") }, func(c2 *Ctx) {
+			c.Borrow("C02.R4", func(k string) bool {
+				return strings.Contains(k, "dispatch-context") || strings.Contains(k, "handler-context")
+			}, func(c2 *Ctx) {
 				checkHandlerCtxProvenance(c2, p, R)
 			})
-			if c.Borrow("C02.R4", func(k string) bool { return strings.Contains(k, "sequential-lock-released") || strings.Contains(k, "sequential-unlock") }, func(c2 *Ctx) {
+			if c.Borrow("C02.R4", func(k string) bool {
+				return strings.Contains(k, "sequential-lock-released") || strings.Contains(k, "sequential-unlock")
+			}, func(c2 *Ctx) {
 				runFrames(c2, p, R, map[string]string{"C05.R3": "X"})
 			}) == 0 {
 				c.Discharge("C02.R4", "dispatch-fn/sequential-lock-released", "", "every exit of the dispatch function (return, recovered panic) releases the sequential lock it took")
